@@ -290,7 +290,7 @@ def materialise(case):
         elif kind == "repeat":
             # a run of 1..3 tokens repeated many times: long chains and deep nesting (bounded by the 64 KB cut below)
             w = 1 + b % 3
-            n = [40, 400, 3000][(b // 3) % 3]
+            n = [40, 400, 1500][(b // 3) % 3]
             toks[i:i + w] = toks[i:i + w] * n
         elif kind == "unbalance":
             toks = [t for k, t in enumerate(toks) if not (t in (b")", b"}", b"]") and k >= i)][:len(toks)]
@@ -317,11 +317,22 @@ def judge(case, ctx):
         else:
             argv = [build.tool("parse_file"), "-S" + run.PARSER_INC] + cpp + ["in.h"]
         r = run.run(argv, cwd=d, timeout=20, env=run.base_env({"SOURCE_DATE_EPOCH": "1"}))
+        slow = False
+        if r.timed_out:
+            # slow is not endless: long one-line inputs make the diagnostics quadratic (every error re-reads and prints the line).
+            # Only an input that is still running after ten times the budget is reported as a hang.
+            slow = True
+            for o in outs:
+                if os.path.exists(os.path.join(d, o)):
+                    os.unlink(os.path.join(d, o))
+            r = run.run(argv, cwd=d, timeout=200, env=run.base_env({"SOURCE_DATE_EPOCH": "1"}))
         exist = [o for o in outs if os.path.exists(os.path.join(d, o))]
     classes = ["tool." + case["tool"]] + ["mut." + m[0] for m in case["muts"]]
     show = data[:600]
     if r.timed_out:
-        return Outcome(ok=False, key="hang:" + case["tool"], classes=classes, detail="%s does not terminate within 20 s on a %d-byte input: %r" % (case["tool"], len(data), show))
+        return Outcome(ok=False, key="hang:" + case["tool"], classes=classes, detail="%s does not terminate within 200 s on a %d-byte input: %r" % (case["tool"], len(data), show))
+    if slow:
+        classes.append("slow-but-terminates")
     if r.signal:
         err = r.err.decode("latin-1")
         why = "assert" if "Assertion" in err else ("uncaught:" + re.search(r"instance of '([^']+)'", err).group(1) if "terminate called" in err and re.search(r"instance of '([^']+)'", err) else r.kind())
